@@ -129,6 +129,13 @@ impl RecvHandle for Receiver {
             tracing::trace!("trying to read from transport");
             let len = self.read.read_buf(&mut self.buf).await?;
             tracing::trace!("read {len} bytes. buffer length is {}", self.buf.len());
+            if len == 0 {
+                break Err(io::Error::new(
+                    io::ErrorKind::UnexpectedEof,
+                    "transport closed by peer",
+                )
+                .into());
+            }
         }
     }
 }
